@@ -31,7 +31,7 @@ TY = {"action": ("aop", "aout", "astep", "aout_eqb", "ainit"),
       "mirror": ("mop", "mout", "mstep", "mout_eqb", "minit"),
       "sm": ("sop", "sout", "sstep", "sout_eqb", "sinit"),
       "val": ("vop", "vout", "(vstep hk_%s hp_%s)", "vout_eqb", "vinit")}
-MON = {"action": "a_mon", "round": "r_mon", "fin": "f_mon", "chs": "c_mon", "mirror": "m_mon", "sm": "s_mon",
+MON = {"action": "a_mon_checked", "round": "r_mon", "fin": "f_mon", "chs": "c_mon", "mirror": "m_mon", "sm": "s_mon",
        "val": "(v_mon hk_%s hp_%s)"}
 REPLAYED_BASE = 1000000
 
